@@ -11,7 +11,9 @@ Tie:      the REAL Patron (ioflo/aio/http/clienting.py of $IOFLO_REPO) is driven
           `Std` parameter (table lookup; a call the model makes that the code did not make is `std-miss`).
 Oracle:   independent of the model: RFC 3986 §5.2 reference resolution written here + the clauses of the
           property (one request per redirect, to the resolved location, on the right endpoint, reconnect
-          iff endpoint/scheme differ, never https→http, one final response carrying the chain in order).
+          iff endpoint/scheme differ, never https→http, one final response carrying the chain in order; a redirect whose Location is
+          missing, empty, malformed or unresolvable is not followed and not raised but delivered as the final
+          response, flagged errored, with nothing sent for it and the connection kept).
 """
 import json, re, socket
 from urllib.parse import unquote_to_bytes, parse_qsl, quote as _q, quote_plus as _qp
@@ -120,8 +122,8 @@ class CHECK(core.Check):
             "responses (300/301/302/303/307; Location absolute with/without port/path/query/fragment/userinfo, "
             "upper-case scheme/host, network-path, absolute-path, relative-path with ./ and ../, query-only; "
             "http<->https, other hosts, DNS aliases of the same address, IPv4 literals; redirect responses "
-            "with bodies of 0-300 bytes, fixed-length or chunked, delivered in pieces, compared in `redirects`) and a final response; ~15% malformed stream (no Location, bad port, "
-            "unknown host, ftp scheme, encoded delimiters, '//' paths, bare/duplicate query keys, 305/306/308, "
+            "with bodies of 0-300 bytes, fixed-length or chunked, delivered in pieces, compared in `redirects`) and a final response; ~15% malformed stream (no/empty Location, bad port, unbalanced "
+            "bracket, authority without host, unknown host — all of which must be delivered errored —, ftp scheme, encoded delimiters, '//' paths, bare/duplicate query keys, 305/306/308, "
             "not redirectable). Non-trivial = at least one redirect was followed and a final response delivered; "
             "distinct by case content")
     TRUSTED = ["correspondence: the real Patron/Requester/Respondent of $IOFLO_REPO run in-process over socket.socketpair "
@@ -130,7 +132,9 @@ class CHECK(core.Check):
                "urllib.parse (urlsplit, urljoin, unquote, quote, quote_plus, unquote_plus) and DNS enter the model as the "
                "parameter `Std`; the driver instantiates it with the results recorded from the implementation's own calls",
                "oracle: RFC 3986 section 5.2 reference resolution + unquote_to_bytes/parse_qsl of CPython for target equivalence",
-               "the model describes redirect() as repaired by fixes/D34a, D34b, D34c, D34d (integrated in /repo)"]
+               "the model describes redirect()/serviceResponse() as repaired by fixes/D34a, D34b, D34c, D34d, D32a and D34f; "
+               "before D32a a missing/malformed/unresolvable Location left serviceAll as AttributeError/ValueError/gaierror "
+               "with the 3xx stuck in .redirects and the Patron waiting for ever"]
     PARTIAL = ["C34_relative_location_resolved_partial: that a relative Location is requested from the same scheme, host, "
                "port and connection is proved given the answers of urljoin/urlsplit for it (hypotheses; CPython gives them "
                "because the base url is built from exactly that scheme, host and port)",
@@ -145,23 +149,31 @@ class CHECK(core.Check):
     TECHNIQUE = ("Lean 4 theorems over a message-level state machine (invariants by induction over histories; case analysis "
                  "of redirect() with urllib.parse as a parameter) + differential correspondence against the real client over "
                  "socket-pair doubles with the recorded standard-library results as the model's parameter")
-    LEVEL_TEXT = ("Proved on the model, for all histories and for every behaviour of urllib.parse/DNS: a client on https never "
+    LEVEL_TEXT = ("Proved on the model, for all histories and for every behaviour of urllib.parse/DNS: however a Patron is "
+                  "constructed (host/port, URL, scheme given or not, caller-supplied plain/TLS connector) its scheme is https "
+                  "exactly when its connection is TLS and http otherwise, a connector dictating TLS, host and port "
+                  "(C34_constructed_consistent, C34_constructed_secure); a client on https never "
                   "opens or uses a non-TLS connection, also not before an exception (C34_never_downgrades; C34_no_downgrade: "
                   "ValueError and nothing sent); a followed redirect replaces the connection iff resolved address, port or "
                   "scheme differ and sends exactly one request either way (C34_reconnect_iff_authority_differs, "
                   "C34_same_authority_same_connection, C34_relative_location_resolved_partial (given the urljoin/urlsplit "
                   "answers), C34_followed_request: method kept, body dropped, Host of the new "
                   "authority); after redirects rs and a final response f .responses grows by exactly one entry carrying rs in "
-                  "arrival order, .redirects is empty again, one request per redirect, one delivery (C34_chain_in_order). "
+                  "arrival order, none flagged errored, .redirects is empty again, one request per redirect, one delivery "
+                  "(C34_chain_in_order); a redirect whose Location is missing, empty, rejected by urljoin/urlsplit/.port, "
+                  "host-less or unresolvable produces the single effect `deliver` of that response flagged errored with "
+                  "the chain so far, connection and requester untouched (C34_bad_location_delivered), and over all histories "
+                  "neither InvalidURL nor gaierror ever leaves serviceAll (C34_location_errors_contained). "
                   "Partial: the exact request target (C34_target_resolved_partial) assumes laws of urlsplit/quote as "
                   "hypotheses; C34_target_counterexample is the recorded defect D34e.")
     LEVEL_NOTE = ("Trusted: Lean kernel; axioms propext, Classical.choice, Quot.sound; the hand transcription of clienting.py "
-                  "(as repaired by fixes/D34a-d) validated only by the correspondence runs; CPython's urllib.parse (a parameter "
+                  "(as repaired by fixes/D34a-d, D32a, D34f) validated only by the correspondence runs; CPython's urllib.parse (a parameter "
                   "of the model, instantiated from recorded calls); the socket-pair, DNS and 'TLS flag' doubles; the stub "
                   "servers; byte-level response parsing is exercised (real Respondent) but not modelled.")
 
     def __init__(self):
         self._trace = {}
+        self._wrote = {}
         self._lossy_cache = {}
 
     # ------------------------------------------------------------------ generation
@@ -248,6 +260,11 @@ class CHECK(core.Check):
             "/p?a=1;b=2",
             "/p?=v",
             "%s://[::1]:81/z" % scheme_now,
+            "%s://[::1/x" % scheme_now,
+            "//%s:port/x" % host,
+            "%s://:81/x" % scheme_now,
+            "//user@/x",
+            "%s://nowhere.invalid:8080/p?k=v" % scheme_now,
             "%s://%s:0/z" % (scheme_now, host),
             "",
             "#only",
@@ -363,6 +380,21 @@ class CHECK(core.Check):
                                         "chunked": chunked},
                                        {"op": "resp", "status": 200, "location": None, "body": "6f6b", "pieces": 1,
                                         "chunked": not chunked}]}
+        # a Location that cannot be used, first or after a followed hop, alone or with a request queued behind it
+        for scheme in ("http", "https"):
+            for bad in (None, "", "%s://b.test:8x/p" % scheme, "%s://b.test:99999/p" % scheme, "%s://[::1/x" % scheme,
+                        "%s://nowhere.invalid/p" % scheme, "//nowhere.invalid/p", "http://nowhere.invalid/p",
+                        "%s://:81/x" % scheme, "//user@/x"):
+                for lead in ([], [{"op": "resp", "status": 301, "location": "/hop", "body": "68", "pieces": 1}]):
+                    for queued in (False, True):
+                        ops = [{"op": "request", "method": "GET", "path": "/d/p", "qargs": [], "body": ""}]
+                        if queued:
+                            ops.append({"op": "request", "method": "POST", "path": "/next", "qargs": [], "body": "01"})
+                        ops += lead + [{"op": "resp", "status": 302, "location": bad, "body": "6e6f", "pieces": 2}]
+                        if queued:
+                            ops.append({"op": "resp", "status": 200, "location": None, "body": "6f6b", "pieces": 1})
+                        yield {"dns": dict(self.DNS), "start": {"host": "a.test", "port": None, "scheme": scheme,
+                                                               "redirectable": True}, "ops": ops}
         if tier == "thorough":
             for scheme in ("http", "https"):
                 for f in forms:
@@ -394,6 +426,7 @@ class CHECK(core.Check):
         from ioflo.aid.odicting import odict
         net = D.Net(case["dns"])
         calls, lines = [], []
+        self._wrote[core.case_key(case)] = wrote = {}     # op index -> body bytes the stub server wrote
         pending = []           # connections with an unanswered request, oldest first
         state = {"delivered": 0, "dead": None}
         p = None
@@ -450,7 +483,7 @@ class CHECK(core.Check):
             except Exception as ex:
                 lines.append("err " + type(ex).__name__)
                 state["dead"] = True
-            for op in case["ops"]:
+            for opi, op in enumerate(case["ops"]):
                 if state["dead"]:
                     lines.append("dead")
                     continue
@@ -482,6 +515,7 @@ class CHECK(core.Check):
                         else:
                             payload = body
                         wire = head + (b"" if nobody else payload)
+                        wrote[opi] = 0 if nobody else len(body)
                         k = max(1, min(op.get("pieces", 1), len(wire)))
                         cut = [len(wire) * i // k for i in range(k + 1)]
                         before = len(net.log)
@@ -503,7 +537,8 @@ class CHECK(core.Check):
 
                 def rec(r):
                     loc = r["headers"].get("location")
-                    return "%d %s %s %s" % (r["status"], "~" if loc is None else hx(loc), snap(r), bytes(r["body"]).hex() or "-")
+                    return "%d %s %s %s %d" % (r["status"], "~" if loc is None else hx(loc), snap(r), bytes(r["body"]).hex() or "-",
+                                               1 if r.get("errored") else 0)
                 s = "final %d %d %d" % (1 if p.waited else 0, len(p.redirects), len(p.responses))
                 for r in p.responses:
                     chain = r.get("redirects", [])
@@ -522,8 +557,12 @@ class CHECK(core.Check):
                 l = "std urlsplit %s %s %s %s %s %s %s %s %s" % (hx(args[0]), hx(res.scheme), hx(res.netloc), hx(res.path),
                                                                 hx(res.query), hx(res.fragment), "~" if hn is None else hx(hn),
                                                                 port, hx(res.geturl()))
+            elif name == "urlsplit/raise" and len(args) == 1:
+                l = "std urlsplit %s - - - - - ~ ! -" % hx(args[0])
             elif name == "urljoin" and len(args) == 2:
                 l = "std urljoin %s %s %s" % (hx(args[0]), hx(args[1]), hx(res))
+            elif name == "urljoin/raise" and len(args) == 2:
+                l = "std urljoin %s %s !" % (hx(args[0]), hx(args[1]))
             elif name in ("unquote", "quote", "quote_plus", "unquote_plus") and len(args) == 1 and isinstance(args[0], str):
                 l = "std %s %s %s" % (name, hx(args[0]), hx(res))
             else:
@@ -559,13 +598,14 @@ class CHECK(core.Check):
         # what the last request's method was decides whether the stub server wrote a body (HEAD): the harness, not the
         # model, plays the server, so the declared/written lengths are inputs of the model
         methods = self._methods_per_resp(case)
-        for op, m in zip(case["ops"], methods):
+        wrote = self._wrote.get(key, {})
+        for opi, (op, m) in enumerate(zip(case["ops"], methods)):
             if op["op"] == "request":
                 kv = " ".join("%s %s" % (hx(k), hx(v)) for k, v in op["qargs"])
                 out.append(("request %s %s %s %s" % (hx(op["method"]), hx(op["path"]), op["body"] or "-", kv)).strip())
             else:
                 n = len(bytes.fromhex(op["body"]))
-                blen = 0 if (m == "HEAD" or op["status"] in (204, 304)) else n
+                blen = wrote[opi] if opi in wrote else (0 if (m == "HEAD" or op["status"] in (204, 304)) else n)
                 out.append("resp %d %s %d %d %s" % (op["status"], "~" if op["location"] is None else hx(op["location"]), n, blen,
                                                     (op["body"] or "-") if blen else "-"))
         out.append("final")
@@ -686,7 +726,7 @@ class CHECK(core.Check):
                 endpoint = (bytes.fromhex(f[1]).decode(), int(f[2]), f[3] == "1")
                 scheme = "https" if endpoint[2] else "http"
                 tgt = bytes.fromhex(f[5]).decode() if f[5] != "-" else ""
-                cur["chain"].append((status, loc, carried))
+                cur["chain"].append((status, loc, carried, False))
                 cur["base_path"] = unquote_to_bytes(tgt.partition("?")[0]).decode("utf-8", "replace")
                 cur["query"] = tgt.partition("?")[2] or None
                 return True
@@ -696,12 +736,44 @@ class CHECK(core.Check):
                 if tag_along():
                     continue
                 return None
-            if not follow:
+            # a redirect whose Location cannot be used (missing, empty, port that is no port, unbalanced bracket, no host, host
+            # that does not resolve) must not be followed and must not raise: the 3xx response itself is the final
+            # response, flagged errored; nothing is sent for it and the connection stays (fix D32a)
+            unusable = None
+            if follow:
+                if not loc:
+                    unusable = "no Location"
+                else:
+                    try:
+                        loc.encode("ascii")
+                        _s, _a, _p, _q2, _f = rfc_split(loc)
+                    except Exception:
+                        _s = _a = None
+                    if _a is not None and (_s is None or _s.lower() in ("http", "https")) and not re.search(r"[\x00-\x20\x7f]", loc):
+                        hp = _a.rpartition("@")[2]
+                        h, ptxt = authority_host_port(_a)
+                        if hp.count("[") != hp.count("]"):
+                            unusable = "unbalanced bracket in %r" % _a
+                        elif _a != "" and not h:
+                            unusable = "authority %r without a host" % _a
+                        elif ptxt is not None and not (ptxt.isdigit() and int(ptxt) < 65536):
+                            unusable = "port %r" % ptxt
+                        elif not hp.startswith("[") and h and h not in dns and not re.fullmatch(r"\d{1,3}(\.\d{1,3}){3}", h):
+                            unusable = "host %r does not resolve" % h
+            if unusable:
+                if endpoint[2] and loc and (rfc_split(loc)[0] or "").lower() == "http" and err_eff and not sends and not opens \
+                        and "close" not in effs:
+                    return None    # also an https -> http redirect: refusing it is as good
+                if err_eff:
+                    return "op %d: redirect %d with unusable Location (%s) raised: %s" % (i, status, unusable, line)
+                if "close" in effs or opens:
+                    return "op %d: redirect %d with unusable Location (%s) touched the connection: %s" % (i, status, unusable, line)
+            if not follow or unusable:
                 if "deliver" not in effs:
                     return "op %d: final response %d not delivered (%s)" % (i, status, line)
                 if effs.count("deliver") != 1:
                     return "op %d: delivered more than once" % i
-                expect_final.append((status, carried, list(cur["chain"])))
+                expect_final.append((status, carried, bool(unusable), list(cur["chain"])))
                 delivered += 1
                 cur = None
                 if queue:
@@ -716,8 +788,6 @@ class CHECK(core.Check):
                     return "op %d: request sent with nothing queued (%s)" % (i, line)
                 continue
             # a redirect that must be followed
-            if loc is None:
-                return None        # the property presupposes a Location
             base = (scheme, SAME, _q(cur["base_path"], safe="/"), cur.get("query"))
             try:
                 loc.encode("ascii")
@@ -732,16 +802,20 @@ class CHECK(core.Check):
                 if tag_along():    # no demand on this hop
                     continue
                 return None
-            cur["chain"].append((status, loc, carried))
+            cur["chain"].append((status, loc, carried, False))
             if ra == SAME:         # same authority as the outstanding request
                 t_ip, t_port = endpoint[0], endpoint[1]
                 same_auth = True
             else:
                 h, ptxt = authority_host_port(ra)
-                if ptxt is not None and not (ptxt.isdigit() and 0 < int(ptxt) < 65536):
-                    return None    # no valid port: no demand
-                if h not in dns and not re.fullmatch(r"\d{1,3}(\.\d{1,3}){3}", h):
-                    return None    # unresolvable host: no demand
+                if ptxt is not None and int(ptxt) == 0:
+                    cur["chain"].pop()
+                    if tag_along():    # port 0: no demand
+                        continue
+                    return None
+                if h not in dns:
+                    if not re.fullmatch(r"\d{1,3}(\.\d{1,3}){3}", h):
+                        return None    # bracketed literal: no demand
                 t_ip = dns.get(h, h)
                 t_port = int(ptxt) if ptxt is not None else (443 if rs == "https" else 80)
                 same_auth = False
@@ -807,9 +881,11 @@ class CHECK(core.Check):
             if int(last[3]) != delivered:
                 return "%d responses in .responses, %d final responses were delivered" % (int(last[3]), delivered)
             recs = self._parse_final(last)
-            for (status, body, chain), (rstatus, rbody, rchain) in zip(expect_final, recs):
+            for (status, body, errored, chain), (rstatus, rbody, rerrored, rchain) in zip(expect_final, recs):
                 if rstatus != status:
                     return "response status %d, expected %d" % (rstatus, status)
+                if rerrored != errored:
+                    return "response %d has errored=%s, expected %s" % (status, rerrored, errored)
                 if rbody != body:
                     return "final response %d has body %r, the server sent %r" % (status, rbody, body)
                 if rchain != chain:
@@ -820,19 +896,19 @@ class CHECK(core.Check):
 
     @staticmethod
     def _parse_final(tok):
-        """records are `status location host port scheme method path body`"""
+        """records are `status location host port scheme method path body errored`"""
         recs, i = [], 4
         def one(j):
             status = int(tok[j]); loc = None if tok[j + 1] == "~" else bytes.fromhex(tok[j + 1].replace("-", "")).decode()
-            return (status, loc, tok[j + 7].replace("-", "")), j + 8
+            return (status, loc, tok[j + 7].replace("-", ""), tok[j + 8] == "1"), j + 9
         while i < len(tok) and tok[i] == "R":
-            (status, _loc, body), j = one(i + 1)
+            (status, _loc, body, errored), j = one(i + 1)
             n = int(tok[j]); j += 1
             chain = []
             for _ in range(n):
                 r, j = one(j)
                 chain.append(r)
-            recs.append((status, body, chain))
+            recs.append((status, body, errored, chain))
             i = j
         return recs
 
